@@ -126,7 +126,9 @@ void run_typed(const Execution &ex) {
             std::vector<T> src;
             for (int x : vals) src.push_back(Val<T>::make(x));
             T dummy = Val<T>::make(1);
-            me = new A(src.empty() ? &dummy : src.data(), src.size(), true);   // never a null pointer, even for length 0
+            // never a null pointer, even for length 0; odd lengths rely on the default of the third parameter (copy)
+            if (src.size() % 2) me = new A(src.data(), src.size());
+            else me = new A(src.empty() ? &dummy : src.data(), src.size(), true);
         } else if (op == "CtorAdopt") {
             T *buf = static_cast<T *>(malloc(vals.size() * sizeof(T)));
             for (size_t k = 0; k < vals.size(); ++k) new (&buf[k]) T(Val<T>::make(vals[k]));
